@@ -71,6 +71,64 @@ def judge(ctx, execs, tally):
                       "reported": sorted(reported)[:6]})
 
 
+def work_resolve(inst, tally):
+    """History solve, get, solve, get on ONE Solver under -stab: the report
+    after the re-solve must again be a stable matching of maximum size."""
+    from .. import lpcheck, lprun
+    from ..explore import Env
+    text = I.render(inst)
+    for crits in ((("maxsize", ()),), ()):
+        tail = lpcheck.tail_for(inst, False, True, list(crits))
+        obs = lprun.run_solver(text, tail, Env([]),
+                               history=["solve", "short", "long", "solve", "short"])
+        tally.inc("executions")
+        tally.inc("answers", len(obs["solves"] or []))
+        tally.inc("resolve_histories")
+        shorts = [v for n, v in obs["outputs"] if n == "short"]
+        base = {"instance": I.to_json(inst), "file": text, "argv": tail, "twopl": True,
+                "pc": False, "stab": True, "crits": [list(c) for c in crits],
+                "history": ["solve", "short", "long", "solve", "short"]}
+        if obs["exc"] is not None:
+            v = dict(base)
+            v["fingerprint"] = "resolve:exc:" + obs["exc"]["fingerprint"]
+            v["what"] = "history solve,get,get,solve,get raised: %s" % obs["exc"]["message"]
+            tally.violation(v)
+            continue
+        valid = [M for M in ref.assignments(inst) if ref.valid(inst, M, False)]
+        stable = [M for M in valid if not ref.blocking_pairs(inst, M)]
+        for which, t in zip(("first", "second"), shorts):
+            d = lprun.parse_results(t)
+            if "matching" not in d:
+                if stable:
+                    v = dict(base)
+                    v["fingerprint"] = "resolve:%s-report-no-matching" % which
+                    v["what"] = "%s report shows status %r although stable matchings exist" % (
+                        which, d.get("pulp_status"))
+                    tally.violation(v)
+                continue
+            M = tuple(d["matching"])
+            bad = None
+            if ref.validity_defects(inst, M, False):
+                bad = "invalid"
+            elif ref.blocking_pairs(inst, M):
+                bad = "unstable"
+            elif crits and d.get("size") != max(sum(1 for p in S if p) for S in stable):
+                bad = "not-maximum-stable-size"
+            if bad:
+                v = dict(base)
+                v["fingerprint"] = "resolve:%s-report-%s" % (which, bad)
+                v["what"] = "%s report of the history prints %r: %s (blocking pairs %r)" % (
+                    which, M, bad, ref.blocking_pairs(inst, M)[:3])
+                tally.violation(v)
+
+
+def resolve_instances(tier):
+    out = [x for x in I.family_A(True, profiles=("unit", "cap2", "lectight"))
+           if (x.ns, x.np) in ((2, 2), (3, 1), (1, 3))]
+    out += list(I.family_M(sizes=(4, 5) if tier == "thorough" else (5,)))[::2]
+    return out
+
+
 def main(tier):
     from . import c02
     return sweep.run_lp_check(
@@ -81,7 +139,10 @@ def main(tier):
         "stable and at least one unstable valid matching",
         extra=lambda t: {k: t.c.get(k, 0) for k in
                          ("both_direction_items", "size_items",
-                          "items_without_stable_matching")},
+                          "items_without_stable_matching", "resolve_histories")},
+        extra_work=(work_resolve, resolve_instances(tier),
+                    "history solve,get,get,solve,get on one Solver under -stab x {maxsize, none}: "
+                    "A(2,2),(3,1),(1,3) x {unit,cap2,lectight} and every second M instance"),
         interleave_opts=c02.INTERLEAVE_OPTS[:5],
         vacuity=lambda t: None if t.c.get("nontrivial") else "no item separates stable from unstable")
 
